@@ -3,12 +3,12 @@ module github.com/formancehq/numscript/zzverif
 go 1.23
 
 require (
+	github.com/antlr4-go/antlr/v4 v4.13.1
 	github.com/formancehq/numscript v0.0.0
 	golang.org/x/tools v0.29.0
 )
 
 require (
-	github.com/antlr4-go/antlr/v4 v4.13.1 // indirect
 	golang.org/x/exp v0.0.0-20240707233637-46b078467d37 // indirect
 	golang.org/x/mod v0.22.0 // indirect
 	golang.org/x/sync v0.10.0 // indirect
